@@ -395,7 +395,7 @@ theorem cx_setup : AInv cxR1 ∧ LockInv cxR1 none ∧ WriteableInv cxR1 ∧ cxR
   have : cxR1.sp.state = .skip := by decide +kernel
   simp [this]
 
-theorem cx_failed_read : (cxR1.pollInput none none cxT).2.2.2 = .err .connectionAborted ∧
+theorem cx_failed_read : (cxR1.pollInput none none cxT).2.2.2 = .err .abortRequest ∧
     cxR2.sp.parsed = [65, 66] ∧ cxR2.writeable = false ∧ cxR2.isFinalStream = true ∧
     cxR2.sp.stream = some 8 := by
   decide +kernel
